@@ -186,17 +186,26 @@ string string_vprintf(const char* fmt, va_list va) {
 wstring wstring_vprintf(const wchar_t* fmt, va_list va) {
   // TODO: use open_wmemstream when it's available on mac os
   wstring result;
-  result.resize(wcslen(fmt) * 2); // silly guess
+  result.resize(wcslen(fmt) * 2 + 16); // silly guess
 
-  ssize_t written = -1;
-  while ((written < 0) || (written > static_cast<ssize_t>(result.size()))) {
+  // vswprintf returns a negative value when the output (including the
+  // terminating null) doesn't fit, so grow the buffer and try again. It also
+  // returns a negative value for genuine errors (e.g. an unconvertible
+  // multibyte sequence), so give up at some point instead of looping forever.
+  for (;;) {
     va_list tmp_va;
     va_copy(tmp_va, va);
-    written = vswprintf(result.data(), result.size(), fmt, va);
+    int written = vswprintf(result.data(), result.size(), fmt, tmp_va);
     va_end(tmp_va);
+    if ((written >= 0) && (static_cast<size_t>(written) < result.size())) {
+      result.resize(written);
+      return result;
+    }
+    if (result.size() >= 0x4000000) {
+      throw runtime_error("cannot format wide string");
+    }
+    result.resize(result.size() * 2);
   }
-  result.resize(written);
-  return result;
 }
 
 uint8_t value_for_hex_char(char x) {
